@@ -4,8 +4,8 @@ import json
 import re
 
 ANSI = re.compile(r'\x1b\[[0-9;]*m')
-ALG_LINE = re.compile(r'^\((kex|key|enc|mac|aut)\) (\S+)(?: \(([^)]*-bit[^)]*)\))?\s*(?:-- \[(fail|warn|info)\] (.*))?$')
-CONT_LINE = re.compile(r'^\s+`- \[(fail|warn|info)\] (.*)$')
+ALG_LINE = re.compile(r'^\((kex|key|enc|mac|aut)\) ([^ ]+)(?: \(([^)]*-bit[^)]*)\))? *(?:-- \[(fail|warn|info)\] (.*))?$')
+CONT_LINE = re.compile(r'^ +`- \[(fail|warn|info)\] (.*)$')
 GEN_LINE = re.compile(r'^\(gen\) ([a-zA-Z0-9 ]+?): ?(.*)$')
 REC_LINE = re.compile(r'^\(rec\) ([-+!])(\S+)\s*-- (kex|key|enc|mac) algorithm to (remove|append|change)(?: \((.*)\))? $')
 FIN_LINE = re.compile(r'^\(fin\) ([^:]+): (\S+)(?: -- \[info\] (.*))?$')
